@@ -109,6 +109,7 @@ class Contract:
         self.probe_only = d.get("probe_only", [])  # ... of which only these obligations (substrings) are reported
         self.drop_callee_ensures = d.get("drop_callee_ensures", {})   # callee contract -> ensures-name prefixes not assumed
         self.closure = d.get("closure", {})        # nested function: free variables of the enclosing call, as symbolic values of these sorts
+        self.cites = d.get("cites", [])            # an assumed summary of a function verified in another sidecar group: obligation tags that must be discharged there
         self.no_wf = d.get("no_wf", False)        # an initialiser: the receiver's well-formedness is established here, not assumed at entry
         self.prefer = d.get("prefer")             # "cvc5": try cvc5 before z3 on this function's obligations
         self.ctor = d.get("ctor", False)          # constructor: invariant asserted at exit only
